@@ -60,6 +60,9 @@ type Prop struct {
 	Workers int
 	// NoDriver: the property needs no model evaluation (Compare receives an empty reply).
 	NoDriver bool
+	// RunChild, when set, is what `harness -child` evaluates for a case (see RunIsolated); Run then
+	// typically is `func(c Case) any { return hx.RunIsolated("Cxx", c, 5000) }`.
+	RunChild    func(c Case) any
 	Assumptions []string
 }
 
@@ -271,6 +274,9 @@ func implKind(v any) string {
 		}
 		if _, ok := m["hang"]; ok {
 			return "hang"
+		}
+		if _, ok := m["crash"]; ok {
+			return "crash"
 		}
 		if k, ok := m["kind"].(string); ok {
 			return k
@@ -566,6 +572,167 @@ func (e *Engine) Run() *Result {
 	}
 	res.WallS = time.Since(t0).Seconds()
 	return res
+}
+
+// ---------------------------------------------------------------- child-process isolation
+//
+// Some inputs kill the process (fatal stack overflow, runaway memory) or never return. A property whose
+// Run must survive those calls RunIsolated from its Run function: the case is evaluated by RunChild in a
+// child process (the harness binary re-executed with -child) under a timeout; a crash or a timeout is an
+// observation ({"crash":…} / {"hang":true}), not the end of the check.
+
+type child struct {
+	cmd *exec.Cmd
+	in  io.WriteCloser
+	out *bufio.Reader
+}
+
+var (
+	childMu   sync.Mutex
+	childPool = map[string][]*child{}
+)
+
+func startChild(prop string) (*child, error) {
+	exe, err := os.Executable()
+	if err != nil {
+		return nil, err
+	}
+	cmd := exec.Command(exe, "-prop", prop, "-child")
+	cmd.Env = append(os.Environ(), "GOMEMLIMIT=2GiB", "GOTRACEBACK=single")
+	in, _ := cmd.StdinPipe()
+	out, _ := cmd.StdoutPipe()
+	var errb strings.Builder
+	cmd.Stderr = &limitedWriter{b: &errb, max: 4000}
+	if err := cmd.Start(); err != nil {
+		return nil, err
+	}
+	return &child{cmd: cmd, in: in, out: bufio.NewReaderSize(out, 1<<20)}, nil
+}
+
+type limitedWriter struct {
+	b   *strings.Builder
+	max int
+}
+
+func (w *limitedWriter) Write(p []byte) (int, error) {
+	if w.b.Len() < w.max {
+		n := w.max - w.b.Len()
+		if n > len(p) {
+			n = len(p)
+		}
+		w.b.Write(p[:n])
+	}
+	return len(p), nil
+}
+
+// RunIsolated evaluates p.RunChild(c) in a child process. timeoutMs bounds the single case.
+func RunIsolated(prop string, c Case, timeoutMs int) any {
+	childMu.Lock()
+	var ch *child
+	if l := childPool[prop]; len(l) > 0 {
+		ch = l[len(l)-1]
+		childPool[prop] = l[:len(l)-1]
+	}
+	childMu.Unlock()
+	if ch == nil {
+		var err error
+		if ch, err = startChild(prop); err != nil {
+			return map[string]any{"crash": "cannot start child: " + err.Error()}
+		}
+	}
+	b, _ := json.Marshal(c)
+	type rd struct {
+		line []byte
+		err  error
+	}
+	rc := make(chan rd, 1)
+	go func() {
+		if _, err := ch.in.Write(append(b, '\n')); err != nil {
+			rc <- rd{nil, err}
+			return
+		}
+		l, err := ch.out.ReadBytes('\n')
+		rc <- rd{l, err}
+	}()
+	kill := func() string {
+		ch.cmd.Process.Kill()
+		ch.cmd.Wait()
+		if lw, ok := ch.cmd.Stderr.(*limitedWriter); ok {
+			return lw.b.String()
+		}
+		return ""
+	}
+	select {
+	case r := <-rc:
+		if r.err != nil {
+			msg := kill()
+			first := msg
+			if i := strings.Index(first, "\n"); i > 0 {
+				first = first[:i]
+			}
+			return map[string]any{"crash": first}
+		}
+		var v any
+		dec := json.NewDecoder(strings.NewReader(string(r.line)))
+		dec.UseNumber()
+		if dec.Decode(&v) != nil {
+			return map[string]any{"crash": "unparsable child reply"}
+		}
+		childMu.Lock()
+		childPool[prop] = append(childPool[prop], ch)
+		childMu.Unlock()
+		return v
+	case <-time.After(time.Duration(timeoutMs) * time.Millisecond):
+		kill()
+		return map[string]any{"hang": true}
+	}
+}
+
+// ChildLoop is the body of `harness -prop X -child`: one case per line in, one observation per line out.
+func ChildLoop(p *Prop) {
+	in := bufio.NewReaderSize(os.Stdin, 1<<20)
+	out := bufio.NewWriter(os.Stdout)
+	run := p.RunChild
+	if run == nil {
+		run = p.Run
+	}
+	for {
+		line, err := in.ReadBytes('\n')
+		if len(line) > 0 {
+			var c Case
+			dec := json.NewDecoder(strings.NewReader(string(line)))
+			dec.UseNumber()
+			var res any
+			if dec.Decode(&c) != nil {
+				res = map[string]any{"crash": "bad case"}
+			} else {
+				q := *p
+				q.Run = run
+				res = runOne(&q, c)
+			}
+			b, _ := json.Marshal(res)
+			out.Write(b)
+			out.WriteByte('\n')
+			out.Flush()
+		}
+		if err != nil {
+			return
+		}
+	}
+}
+
+// StopChildren ends every pooled child process.
+func StopChildren() {
+	childMu.Lock()
+	defer childMu.Unlock()
+	for _, l := range childPool {
+		for _, ch := range l {
+			ch.in.Close()
+			ch.cmd.Process.Kill()
+			ch.cmd.Wait()
+		}
+	}
+	childPool = map[string][]*child{}
 }
 
 // LoadCorpus reads corpus/<id>/*.json (each file: one case object or a list of cases).
